@@ -40,6 +40,10 @@ def gen_history(r, accts):
                 f_ = ops[-1].split(" ")
                 f_[3] = "s"
                 ops[-1] = " ".join(f_)
+            elif r.chance(0.25):      # the state READ of one entry fails: the batch fails as a whole and nothing is written
+                f_ = ops[-1].split(" ")
+                f_[3] = "f%d" % r.below(len(items))
+                ops[-1] = " ".join(f_)
         else:
             a = r.choice(accts)
             s = slot[a.pk] + r.below(2)
